@@ -2,7 +2,12 @@
 (* I-layer of C57: Rock::Rebuild (src/fs/rock/RockRebuild.cc) as the code's per-slot machine, together with the parts of
    Ipc::StoreMap, Ipc::Mem::PageStack and storeRebuildParseEntry it drives.  One operator per method; assertions and
    exceptions that would escape the job are recorded in st.crash (the rebuild "crashes").
-   st.fix = TRUE models the proposed repair of finding F6 (Must(le.anchored()) at the start of finalizeOrThrow). *)
+   st.fix is the set of proposed repairs that are modelled as applied (see checks/C57.py, findings):
+     "anchored"  Must(le.anchored()) at the start of finalizeOrThrow                       (F6, orphan tail)
+     "size"      Must(!swap_file_sz || le.size == swap_file_sz) at the end of finalizeOrThrow  (size-short entries)
+     "own"       after the walk, every slot of the entry's `more` list must be finalized       (foreign slots / leftovers)
+     "undo"      a failed finalizeOrThrow clears the `finalized` marks it has set (needed with "own": a mark left on a
+                 slot of another entry by a failed walk would otherwise pass for that entry's own visit) *)
 EXTENDS RockDb, TLC
 
 InSeq(x, q) == \E i \in 1..Len(q) : q[i] = x
@@ -57,15 +62,20 @@ FinWalk(st, f, s, msz, fuel) ==
               IN IF st.sl[s].size = 0 THEN [st |-> st1, ok |-> FALSE]
                  ELSE FinWalk(st1, f, st.sl[s].next, msz + st.sl[s].size, fuel - 1)
   ELSE [st |-> st, ok |-> (s < 0 /\ msz = st.le[f].size)]
+\* proposed repair "own": no leftovers - every slot collected for this entry (its `more` list) was visited by the walk
+RECURSIVE AllMoreFinalized(_, _, _)
+AllMoreFinalized(st, s, fuel) == s < 0 \/ (fuel > 0 /\ s < st.n /\ st.ls[s].fin /\ AllMoreFinalized(st, st.ls[s].more, fuel - 1))
 FinalizeOrFree(st, f) ==
   IF Dead(st) THEN st
   ELSE IF ~st.an[f].w THEN Crash(st, "assert: writeableEntry in finalizeOrThrow")
-  ELSE IF st.fix /\ ~st.le[f].anch THEN FreeBadEntry(st, f)
+  ELSE IF "anchored" \in st.fix /\ ~st.le[f].anch THEN FreeBadEntry(st, f)
   ELSE LET r == FinWalk(st, f, st.an[f].start, 0, st.n + 2)
+           sizeOk == "size" \in st.fix => (st.an[f].sfs = 0 \/ st.le[f].size = st.an[f].sfs)
+           ownOk == "own" \in st.fix => AllMoreFinalized(r.st, st.an[f].start, st.n + 1)
        IN IF Dead(r.st) THEN r.st
-          ELSE IF r.ok THEN [r.st EXCEPT !.an[f].sfs = (IF @ = 0 THEN st.le[f].size ELSE @), !.an[f].w = FALSE,
+          ELSE IF r.ok /\ sizeOk /\ ownOk THEN [r.st EXCEPT !.an[f].sfs = (IF @ = 0 THEN st.le[f].size ELSE @), !.an[f].w = FALSE,
                                          !.le[f].state = "Loaded"]
-          ELSE FreeBadEntry(r.st, f)
+          ELSE FreeBadEntry(IF "undo" \in st.fix THEN st ELSE r.st, f)
 
 \* StoreMap::freeEntry on an unlocked entry: freeChainAt + rewind; every slice goes to SwapDir::noteFreeMapSlice
 RECURSIVE MapFreeChain(_, _, _)
